@@ -40,7 +40,8 @@ Definition documented_pipelines : list (string * list string) :=
       "return RCA.fit(self, X, chunks)"]);
    ("SCML_Supervised",
      ["X, y = self._prepare_inputs(X, y, ensure_min_samples=2)";
-      "basis, n_basis = self._initialize_basis_supervised(X, y)";
+      "known = y >= 0";
+      "basis, n_basis = self._initialize_basis_supervised(X[known], y[known])";
       "guard: not isinstance(self.k_genuine, int)";
       "guard: not isinstance(self.k_impostor, int)";
       "constraints = Constraints(y)";
